@@ -236,3 +236,26 @@ PROPS['C10'] = dict(
            dict(name='fop_m2_single', harness='h_fop', defs=['MODEL=2', 'PATH=0'], split={'op': R(6)}, max_loop=20000, tiers=[T],
                 max_paths=400, witnesses=['done'])],
 )
+
+PROPS['C11'] = dict(
+    claim='Per-term identities of the real Term::operator()(z) / operator()(tau,beta) code (both overflow-avoiding branches) with exp as an '
+          'uninterpreted positive function plus two listed functional-equation instances, and part-level conjugation symmetry / sign of '
+          'Im G_ii on the real GreensFunctionPart code for all sparsity patterns up to 2x2.',
+    bounds={Q: 'one term with symbolic complex residue, pole, z, tau in [0,beta]; parts up to 2x2 (all pattern pairs)', T: 'same'},
+    assumptions=['double read as exact real', 'E(x) > 0, E(0) = 1, E(bP)E(-bP) = 1, E((b-t)P)E(-bP) = E(-tP) (lemma instances)',
+                 'a part / Green function is the sum of its terms (composition, mathematical step)'],
+    outside=['the Matsubara-sum form of the tau/frequency duality (replaced by the per-term closed-form pair)',
+             'G_ii(beta-) = -<n_i> (needs the C09 weight relation across objects; mathematical step)', 'z G(z) -> delta_ij (follows from C01 + CAR)'],
+    units=[dict(name='gfterm', harness='h_gfterm', defs=[], witnesses=['done', 'positive_pole_branch', 'non_positive_pole_branch', 'bosonic_tau', 'positive_residue'],
+                validate=[{'Rre': 2, 'Rim': 1, 'P': '1/2', 'zre': '1/3', 'zim': 2, 'beta': 3, 'tau': 1}, {'Rre': 2, 'Rim': 1, 'P': '-1/2', 'zre': '1/3', 'zim': 2, 'beta': 3, 'tau': 1}]),
+           dict(name='gfpart_conj_2x2', harness='h_gfpart', defs=['OUTER=2', 'INNER=2', 'REGIME=3'], split={'C': R(16), 'CX': R(16)},
+                witnesses=['computed', 'adjoint_pair_checked'], validate=[{'C': 11, 'CX': 13}]),
+           dict(name='gfpart_conj_1x2', harness='h_gfpart', defs=['OUTER=1', 'INNER=2', 'REGIME=3'], split={'C': R(4)},
+                witnesses=['computed', 'adjoint_pair_checked']),
+           dict(name='gfpart_diag_2x1', harness='h_gfpart', defs=['OUTER=2', 'INNER=1', 'REGIME=4'], split={'C': R(4)},
+                witnesses=['computed', 'diagonal_checked'], validate=[{'C': 3}]),
+           dict(name='gfpart_diag_1x2', harness='h_gfpart', defs=['OUTER=1', 'INNER=2', 'REGIME=4'], split={'C': R(4)},
+                witnesses=['computed', 'diagonal_checked']),
+           dict(name='gfpart_diag_2x2', harness='h_gfpart', defs=['OUTER=2', 'INNER=2', 'REGIME=4'], split={'C': R(16)}, tiers=[T],
+                witnesses=['computed', 'diagonal_checked'], validate=[{'C': 15}])],
+)
